@@ -36,6 +36,36 @@ def loader_table(b):
     return out
 
 
+def rename_rule(ctx):
+    """R05e: FileStorage::rename keeps a working write-ahead log (also evaluated by C01 and C03)."""
+    b = ctx.anchor("R05e", FS_SD + "rename")
+    if b:
+        ren = cfg.call_blocks(b, ["std::fs::rename"])
+        opn = cfg.call_blocks(b, ["std::fs::OpenOptions::open"])
+        wal = cfg.call_blocks(b, ["agdb::storage::write_ahead_log::WriteAheadLog::new"])
+        rm = cfg.call_blocks(b, ["std::fs::remove_file"])
+        ok = bool(ren and opn and wal and rm)
+        if ok:
+            ok = (cfg.find_path(b, [0], rm, avoid=wal) is None and cfg.find_path(b, [0], rm, avoid=opn) is None
+                  and cfg.find_path(b, [0], opn, avoid=ren) is None)
+        ctx.ob("R05e", "FileStorage::rename", ok,
+               "rename -> reopen data file -> new log -> remove old log" if ok else
+               "FileStorage::rename removes the old log before the new file/log exist (or a step is missing)", b.where)
+        # the log that is removed must be the OLD one: self.filename may only be re-assigned after remove_file,
+        # and the removed path derives from wal_filename(&self.filename)
+        assign = [bi for bi, s in cfg.assigns(b) if cfg.origin(b, s["l"]) == (1, [".filename"])]
+        wf = [(i, t) for i, t in cfg.calls(b) if (cfg.callee(t) or "").endswith("WriteAheadLog::wal_filename")]
+        ok2 = bool(assign and rm and wf)
+        if ok2:
+            ok2 = all(cfg.find_path(b, [0], [a], avoid=rm) is None for a in assign)
+            ok2 = ok2 and all(cfg.is_self_field(b, t["a"][0], "filename") for i, t in wf)
+            ok2 = ok2 and all(cfg.find_path(b, [a], [i for i, t in wf], leave_start=True) is None for a in assign)
+        ctx.ob("R05e", "FileStorage::rename:removes-old-log", ok2,
+               "the removed log is wal_filename(old name): self.filename is updated only after remove_file" if ok2 else
+               "FileStorage::rename computes the log to delete after (or not from) the old self.filename: it would delete "
+               "the NEW write-ahead log, leaving later transactions without recovery", b.where)
+
+
 def run(ctx):
     fa = ctx.facts
     b = ctx.anchor("R05a", "<agdb::db::DbImpl<Store> as std::ops::Drop>::drop")
@@ -111,19 +141,7 @@ def run(ctx):
 
     C06.mirror_rule(ctx, "R05d")
 
-    b = ctx.anchor("R05e", FS_SD + "rename")
-    if b:
-        ren = cfg.call_blocks(b, ["std::fs::rename"])
-        opn = cfg.call_blocks(b, ["std::fs::OpenOptions::open"])
-        wal = cfg.call_blocks(b, ["agdb::storage::write_ahead_log::WriteAheadLog::new"])
-        rm = cfg.call_blocks(b, ["std::fs::remove_file"])
-        ok = bool(ren and opn and wal and rm)
-        if ok:
-            ok = (cfg.find_path(b, [0], rm, avoid=wal) is None and cfg.find_path(b, [0], rm, avoid=opn) is None
-                  and cfg.find_path(b, [0], opn, avoid=ren) is None)
-        ctx.ob("R05e", "FileStorage::rename", ok,
-               "rename -> reopen data file -> new log -> remove old log" if ok else
-               "FileStorage::rename removes the old log before the new file/log exist (or a step is missing)", b.where)
+    rename_rule(ctx)
     b = ctx.anchor("R05e", FS_SD + "copy")
     if b:
         bk = [i for i, t in cfg.calls(b) if cfg.callee_decl(t) == "agdb::storage::StorageData::backup"]
